@@ -362,7 +362,7 @@ def gen_wf(rng, tier):
     for ip in BOUND_IPS:
         asts.append(g_ast(rng, fk="ip") | {"frm": ("ip", ip, None)})
         asts.append(g_ast(rng, tk="ip") | {"to": ("ip", ip, rng.choice([None, 0, 1, 31, 32]))})
-    n_extra = 150 if tier == "quick" else 20000
+    n_extra = 150 if tier == "quick" else 10000
     for _ in range(n_extra):
         asts.append(g_ast(rng))
     return asts
@@ -408,7 +408,7 @@ def char_mutants(text):
 
 
 def gen_corrupt(rng, tier, wf_texts):
-    n_seeds = 2 if tier == "quick" else 200
+    n_seeds = 2 if tier == "quick" else 100
     seeds = list(SEEDS_FIXED) + rng.sample(wf_texts, min(n_seeds, len(wf_texts)))
     out, seen = [], set()
     for s in seeds:
@@ -501,7 +501,7 @@ def g_pdr_app_step(rng, ids):
 
 
 def gen_pfd_seqs(rng, tier, wf_texts):
-    n = 200 if tier == "quick" else 6000
+    n = 200 if tier == "quick" else 4000
     seqs = []
     for _ in range(n):
         steps = []
@@ -512,6 +512,8 @@ def gen_pfd_seqs(rng, tier, wf_texts):
             ids += [a["id"] for a in st["apps"] if a["id"] is not None]
             for _ in range(rng.choice([0, 1, 2, 3])):
                 steps.append(g_pdr_app_step(rng, ids or ["app1"]))
+                if rng.random() < 0.3:                      # a second PDR of the same direction naming the same id
+                    steps.append(json.loads(json.dumps(steps[-1])))
         init = None
         if rng.random() < 0.3:
             init = [[i, [g_fd(rng, wf_texts) for _ in range(rng.randrange(3))]] for i in rng.sample(APP_IDS, rng.randrange(3))]
@@ -680,10 +682,17 @@ def monitor(c, o):
                 if m:
                     out.append((m[0], m[1], name))
         return out
+    same = {}
     for st, so in zip(i["steps"], o["steps"]):
         if "panic" in so:
             out.append(("panic", f"{st['kind']} step panicked: " + so["panic"], st))
             break
+        if st["kind"] == "pdr" and "harness_skip" not in so:
+            # the same table, direction, UE and item list must give the same outcome for every PDR
+            key = json.dumps([so["table"], st["iface"], st["ue"], st["items"]], sort_keys=True)
+            res = json.dumps([so["accepted"], so.get("filter")], sort_keys=True)
+            if same.setdefault(key, res) != res:
+                out.append(("appid-filter-differs-between-pdrs", "two PDRs of the same direction naming the same application id got different filters", st))
         if "harness_skip" in so:
             continue
         if st["kind"] == "pfd":
@@ -882,9 +891,19 @@ def run(tier, seed, replay=None):
         print(json.dumps({"input": cases[0]["in"], "impl": obs[0], "monitor": monitor(cases[0], obs[0])}, indent=1, default=str))
     try:
         terms, origin = [], []
+        # the monitor above saw every case; the model is evaluated on all of them except that the largest
+        # corruption class (single-character replacement) is thinned, and the thorough tier is capped
+        n_crepl = 0
+        cap = 10 ** 9 if tier == "quick" else 40000
         for c, o in zip(cases, obs):
             if "harness_error" in o:
                 continue
+            if c["cls"] == "cor-crepl":
+                n_crepl += 1
+                if n_crepl % (2 if tier == "quick" else 8):
+                    continue
+            if len(terms) >= cap:
+                break
             for t, d in coq_terms(c, o):
                 terms.append(t)
                 origin.append((c, o, d))
